@@ -155,7 +155,7 @@ func classify(err error) string {
 func implC02(line string) string {
 	f := strings.Fields(line)
 	switch f[0] {
-	case "call", "new":
+	case "call", "new", "callb", "newb":
 		fn := f[1]
 		var ri int
 		fmt.Sscan(f[2], &ri)
@@ -168,10 +168,26 @@ func implC02(line string) string {
 			}
 		}
 		var src string
-		if f[0] == "call" {
+		switch f[0] {
+		case "call":
 			src = "(" + fn + ").call(" + strings.Join(append([]string{recvs[ri]}, args...), ", ") + ")"
-		} else {
+		case "new":
 			src = "new (" + fn + ")(" + strings.Join(args, ", ") + ")"
+		default:
+			// first argument bound, the rest passed at the call; also a bound function of a bound function
+			var bound, rest []string
+			if len(args) > 0 {
+				bound, rest = args[:1], args[1:]
+			}
+			b := "(" + fn + ").bind(" + strings.Join(append([]string{recvs[ri]}, bound...), ", ") + ")"
+			if ri%2 == 1 {
+				b = "(" + b + ").bind(null)"
+			}
+			if f[0] == "callb" {
+				src = "(" + b + ")(" + strings.Join(rest, ", ") + ")"
+			} else {
+				src = "new (" + b + ")(" + strings.Join(rest, ", ") + ")"
+			}
 		}
 		return guarded(f[0]+" "+fn, func() string {
 			vm := newVM()
@@ -241,7 +257,7 @@ func implC02(line string) string {
 			return "bad-op"
 		}
 		return implSeq(string(b))
-	case "src", "eval", "compile":
+	case "src", "eval", "compile", "gocall", "goobject", "goname":
 		if len(f) < 2 {
 			f = append(f, "")
 		}
@@ -258,6 +274,25 @@ func implC02(line string) string {
 				vm.Run(string(b))
 			case "eval":
 				vm.Eval(string(b))
+			case "gocall":
+				// Otto.Call parses its first argument as source text (plain, "new …", with and without a this value)
+				vm.Call(string(b), nil)
+				vm.Call(string(b), nil, 1, "a")
+				vm.Call("new "+string(b), nil, 1)
+				vm.Call(string(b), map[string]interface{}{"a": 1}, 2)
+			case "goobject":
+				vm.Object(string(b))
+				vm.Object("(" + string(b) + ")")
+			case "goname":
+				// arbitrary bytes as a global name / property name through the Go API
+				vm.Set(string(b), 1)
+				vm.Get(string(b))
+				if o, err := vm.Object("({})"); err == nil {
+					o.Set(string(b), 2)
+					o.Get(string(b))
+					o.Call(string(b))
+					o.Keys()
+				}
 			default:
 				s, err := vm.Compile("", string(b))
 				if err == nil {
@@ -303,6 +338,12 @@ func genC02(c *h.Ctx) {
 		}
 		c.Add(fmt.Sprintf("new %s 0 -", fn), "new")
 		c.Add(fmt.Sprintf("goapi %s %d %d", fn, i%len(recvs), i), "goapi")
+		// the same built-in behind Function.prototype.bind (with and without bound arguments), called and constructed
+		for ai := 0; ai < len(argvs); ai += 7 {
+			c.Add(fmt.Sprintf("callb %s %d %d,%d", fn, (i+ai)%len(recvs), ai, (ai+3)%len(argvs)), "bound:call")
+			c.Add(fmt.Sprintf("newb %s %d %d,%d", fn, (i+ai)%len(recvs), ai, (ai+5)%len(argvs)), "bound:new")
+		}
+		c.Add(fmt.Sprintf("newb %s 0 -", fn), "bound:new")
 	}
 	n := c.N(15000, 1500000)
 	for i := 0; i < n; i++ {
@@ -328,7 +369,13 @@ func genC02(c *h.Ctx) {
 		c.Add("seq "+hex.EncodeToString([]byte(genSeq(r.Fork(), fns, 4+r.Intn(10)))), "sequence")
 	}
 	// byte strings as source
-	kinds := []string{"src", "eval", "compile"}
+	kinds := []string{"src", "eval", "compile", "gocall", "goobject", "goname"}
+	// fixed odd sources for every kind (programs without statements, comments swallowing what the API appends, …)
+	for _, odd := range []string{"", " ", "//x", "/*", "/**/", "//", "f //", "new", "new ", "new //x", ";", "{}", "()", ")", "a.b", "a[", "this", "null", "undefined", "Math.abs", "Math.abs //", "\n", "\u2028", "0", "'s'", "function(){}", "(function(){})", "x => x"} {
+		for _, k := range kinds {
+			c.Add(k+" "+hex.EncodeToString([]byte(odd)), "source:"+k)
+		}
+	}
 	var corpus []string
 	corpus = append(corpus, srcSeeds...)
 	for i := 0; i < 40; i++ {
@@ -368,6 +415,6 @@ func genC02(c *h.Ctx) {
 			p := r.Intn(len(s) + 1)
 			b = []byte(s[:p] + toks[r.Intn(len(toks))] + s[p:])
 		}
-		c.Add(kinds[i%3]+" "+hex.EncodeToString(b), "source:"+kinds[i%3])
+		c.Add(kinds[i%len(kinds)]+" "+hex.EncodeToString(b), "source:"+kinds[i%len(kinds)])
 	}
 }
